@@ -97,7 +97,7 @@ def cop_term(it, r):
         elif k not in a:
             cs.append("(%d, None)" % it.code("k:state" + k[1]))
     cs = "[" + "; ".join(cs) + "]"
-    if r["op"] in ("add", "add_invalid", "restore"):
+    if r["op"] in ("add", "add_invalid", "restore", "genesis"):
         diff = val(it, a[("diff", str(h))]) if ("diff", str(h)) in a else 0
         prune = sorted(int(k[1]) for k in b if k[0] == "diff" and k not in a)
         evprune = sorted(int(k[1]) for k in b if k[0] == "events" and k not in a)
@@ -128,8 +128,22 @@ def crash_term(r):
 def evaluate(ck, recs):
     steps = [r for r in recs if r["k"] == "step"]
     crashes = [r for r in recs if r["k"] == "crash"]
-    rs = ck.coq_eval(IMPORTS, "step_case", "check_step", [step_term(r) for r in steps], shard=20, tag="step")
-    rc = ck.coq_eval(IMPORTS, "crash_case", "check_crash", [crash_term(r) for r in crashes], shard=20, tag="crash")
+    def ev(recs_, typ, fn, term, tag):
+        # big databases (the stall scenario) get a coqc each, the rest is sharded by 20
+        heavy = [i for i, r in enumerate(recs_) if len(r["after"]) > 800]
+        light = [i for i, r in enumerate(recs_) if len(r["after"]) <= 800]
+        rl = ck.coq_eval(IMPORTS, typ, fn, [term(recs_[i]) for i in light], shard=20, tag=tag)
+        rh = ck.coq_eval(IMPORTS, typ, fn, [term(recs_[i]) for i in heavy], shard=1, tag=tag + "_big")
+        if rl is None or rh is None:
+            return None
+        out = [0] * len(recs_)
+        for i, v in zip(light, rl):
+            out[i] = v
+        for i, v in zip(heavy, rh):
+            out[i] = v
+        return out
+    rs = ev(steps, "step_case", "check_step", step_term, "step")
+    rc = ev(crashes, "crash_case", "check_crash", crash_term, "crash")
     for rr, res, kind in ((steps, rs, "step"), (crashes, rc, "crash")):
         if res is None:
             continue
@@ -170,11 +184,13 @@ def translate(ck):
 
 def run(ck):
     translate(ck)
+    from props import c04
+    c04.report_closure(ck)
     ck.prove(extra_targets=["Corr/C13.vo"])
     binp = ck.go_build("c13")
     if not binp:
         return
-    args = ["-scenarios", "8", "-steps", "12"] if ck.tier == "quick" else ["-scenarios", "48", "-steps", "25"]
+    args = ["-scenarios", "8", "-steps", "12", "-stall", "1100"] if ck.tier == "quick" else ["-scenarios", "48", "-steps", "25", "-stall", "1500"]
     recs = ck.run_harness(binp, args, timeout=1500)
     if recs is None:
         return
@@ -204,7 +220,12 @@ def run(ck):
     # the generator must keep producing the cases the seeded changes needed
     for name, ok in (("a block whose batch exceeds 1 MiB", ck.extra["max_payload_bytes"] > (1 << 20)),
                      ("a finality jump of at least 2 heights", ck.extra["max_finality_jump"] >= 2),
-                     ("a restore from the temp table (removeTemp)", ck.extra["restore_steps"] > 0)):
+                     ("a restore from the temp table (removeTemp)", ck.extra["restore_steps"] > 0),
+                     ("the genesis step (first start on an empty data directory) with its crash points",
+                      any(r["op"] == "genesis" for r in st) and any(r["op"] == "genesis" for r in cr)),
+                     ("a block that ends a finality stall and prunes more than 1000 event lists at once",
+                      any(sum(1 for e in r["before"] if e["c"] == "events") - sum(1 for e in r["after"] if e["c"] == "events") > 1000
+                          for r in st))):
         ck.obligations += 1
         if ok:
             ck.discharged += 1
@@ -232,7 +253,7 @@ def replay(ck, path):
     ck.seed = doc.get("seed", ck.seed)
     binp = ck.go_build("c13")
     if binp:
-        recs = ck.run_harness(binp, ["-scenarios", "8", "-steps", "12"], out_name="replay.jsonl", timeout=1500)
+        recs = ck.run_harness(binp, ["-scenarios", "8", "-steps", "12", "-stall", "1100"], out_name="replay.jsonl", timeout=1500)
         if recs is not None:
             same = [r for r in recs if r["k"] == case["k"] and r["scenario"] == case["scenario"] and r["t"] == case["t"]
                     and r.get("j") == case.get("j")]
